@@ -20,7 +20,7 @@ import ast
 
 import frame_rules
 from callgraph import CallGraph
-from repo import call_name
+from repo import call_name, ret_value
 from common import AnalysisError, Finding, norm
 from flow import function_exits
 from props.c17 import S1Client, is_validator_call
@@ -88,7 +88,7 @@ def p2(repo, res):
         if len(rets) != 1:
             problems.append(f"{len(rets)} return statements")
         for r in rets:
-            call = r.value
+            call = ret_value(fn, r)
             if not (isinstance(call, ast.Call) and isinstance(call.func, ast.Attribute) and call.func.attr in ("rotate", "_rotate")
                     and isinstance(call.func.value, ast.Name) and call.func.value.id == "self"):
                 problems.append("does not return self.rotate(...)")
@@ -152,8 +152,9 @@ def p2(repo, res):
     fn = c.methods.get("rotate")
     res.require(fn is not None, "anchor vanished: BaseTransform.rotate")
     rets = [r for r in ast.walk(fn) if isinstance(r, ast.Return)]
-    ok = len(rets) == 1 and isinstance(rets[0].value, ast.Call) and ast.unparse(rets[0].value.func) == "self._rotate" and \
-        {k.arg: ast.unparse(k.value) for k in rets[0].value.keywords} == {"rotation": "rotation", "anchor": "anchor", "start": "start"}
+    rv = ret_value(fn, rets[0]) if len(rets) == 1 else None
+    ok = len(rets) == 1 and isinstance(rv, ast.Call) and ast.unparse(rv.func) == "self._rotate" and \
+        {k.arg: ast.unparse(k.value) for k in rv.keywords} == {"rotation": "rotation", "anchor": "anchor", "start": "start"}
     res.ob("P2:rotate->_rotate", ok, {"rule": "P2", "returns": norm(rets[0]) if rets else None})
     if not ok:
         res.add(Finding("P2", c.mod.rel, "BaseTransform.rotate", rets[0] if rets else fn, "rotate() must forward rotation, anchor, start unchanged to _rotate()"))
@@ -347,18 +348,26 @@ def p7(repo, res):
     p = fn.args.args[0].arg
     branch = None
     for i, s in enumerate(fn.body):
-        if isinstance(s, ast.If) and isinstance(s.test, ast.Compare) and isinstance(s.test.ops[0], ast.Is) and ast.unparse(s.test.left) == p \
-                and isinstance(s.test.comparators[0], ast.Constant) and s.test.comparators[0].value is None:
-            branch = (i, s)
+        if not isinstance(s, ast.If):
+            continue
+        t, neg = s.test, False
+        while isinstance(t, ast.UnaryOp) and isinstance(t.op, ast.Not):
+            t, neg = t.operand, not neg
+        if isinstance(t, ast.Compare) and isinstance(t.ops[0], (ast.Is, ast.IsNot)) and ast.unparse(t.left) == p \
+                and isinstance(t.comparators[0], ast.Constant) and t.comparators[0].value is None:
+            if isinstance(t.ops[0], ast.IsNot):
+                neg = not neg
+            branch = (i, s, s.orelse if neg else s.body)
     res.require(branch is not None, "anchor vanished: `if inp is None` in check_format_input_orientation")
-    i, iff = branch
+    i, iff, none_body = branch
     env = {}
-    for s in list(iff.body) + [x for x in fn.body[i + 1:] if isinstance(x, ast.Assign)]:
+    for s in list(none_body) + [x for x in fn.body[i + 1:] if isinstance(x, ast.Assign)]:
         if isinstance(s, ast.Assign) and len(s.targets) == 1 and isinstance(s.targets[0], ast.Name):
             env[s.targets[0].id] = _rank(s.value, env)
-    rets = [r for r in ast.walk(fn) if isinstance(r, ast.Return) and isinstance(r.value, ast.Tuple) and len(r.value.elts) == 2]
+    rets = [ret_value(fn, r) for r in ast.walk(fn) if isinstance(r, ast.Return)]
+    rets = [v for v in rets if isinstance(v, ast.Tuple) and len(v.elts) == 2]
     res.require(rets, "anchor vanished: `return inp, inpQ` in check_format_input_orientation")
-    q = rets[0].value.elts[1]
+    q = rets[0].elts[1]
     r = _rank(q, env)
     ok = r == ("quat", 1)
     res.ob("P7:None is the single identity rotation", ok or r is None, {"rule": "P7", "quaternion_on_None_path": repr(r), "bindings": {k: repr(v) for k, v in env.items()}})
